@@ -483,4 +483,57 @@ def promptOkB (toInt : Str → Option Int) (choices : List Str) (multi : Bool) (
   | .ok _ => true
   | .error _ => false
 
+/-! ### several questions on ONE input whose script is typed incrementally
+
+An application asks its questions one after the other on the same I/O.  The input script of a
+`BufferedIO` / `StringInputStream` may be extended (`append_input` / `append`), replaced
+(`set_input` / `set`) or dropped (`clear_input` / `clear`) between the questions.  The state of the
+input is the list of lines that are still UNREAD: a dialogue consumes the lines it read (the read
+that meets the end of input consumes nothing), appending puts lines behind the unread ones and
+never brings a line back that was already answered. -/
+
+inductive SQ where
+  /-- `ChoiceQuestion(choices, default)` + `set_multi_select` + `set_max_attempts` -/
+  | choice (choices : List Str) (multi : Bool) (default : Option Str) (limit : Option Nat)
+  /-- `ConfirmationQuestion(default, pattern)` -/
+  | confirm (ci : Bool) (prefixes : List Str) (default : Bool)
+  deriving Repr
+
+inductive SStep where
+  | append (lines : List Str)
+  | set (lines : List Str)
+  | clear
+  | ask (q : SQ)
+  deriving Repr
+
+inductive SOut where
+  | choice (o : Outcome)
+  | confirm (o : COutcome)
+  deriving DecidableEq, Repr
+
+def SOut.reads : SOut → Nat
+  | .choice o => o.reads
+  | .confirm o => o.reads
+
+/-- the dialogue is still waiting for input -/
+def SOut.pending : SOut → Bool
+  | .choice o => decide (o.result = .pending)
+  | .confirm o => decide (o.result = .pending)
+
+/-- one question asked on the lines that are unread at that moment -/
+def askQ (toInt : Str → Option Int) (interactive eof : Bool) (q : SQ) (unread : List Str) : SOut :=
+  match q with
+  | .choice c m d l => .choice (ask toInt c m d l interactive unread eof)
+  | .confirm ci p d => .confirm (confirm (matchPrefix ci p) d interactive unread eof)
+
+/-- the outcomes of the questions of a session, in order; `unread` = the lines not yet read -/
+def session (toInt : Str → Option Int) (interactive eof : Bool) : List SStep → List Str → List SOut
+  | [], _ => []
+  | .append ls :: rest, unread => session toInt interactive eof rest (unread ++ ls)
+  | .set ls :: rest, _ => session toInt interactive eof rest ls
+  | .clear :: rest, _ => session toInt interactive eof rest []
+  | .ask q :: rest, unread =>
+    let o := askQ toInt interactive eof q unread
+    o :: session toInt interactive eof rest (unread.drop o.reads)
+
 end Clikit.Question
